@@ -364,7 +364,7 @@ def programs():
         yield "def f(x, y):\n" + body, ref2
 
 
-ARG_TYPES = [("int",), ("str",), ("Lit1",), ("NoneT",), ("Any",), ("int", "str"), ("Lit1", "str"), ("int", "NoneT"), ("int", "Any"), ("str", "NoneT", "Lit1")]
+ARG_TYPES = [("int",), ("str",), ("Lit1",), ("NoneT",), ("Any",), ("int", "str"), ("Lit1", "str"), ("int", "NoneT"), ("int", "Any"), ("str", "NoneT", "Lit1"), ("str", "Any")]
 POSITIONS = [{"x": 0, "y": 1}, {"x": 0, "y": "DEFAULT"}, {"x": "x", "y": "UNKNOWN"}, {"x": "ARGS", "y": "KWARGS"}]
 
 
